@@ -188,20 +188,29 @@ pub fn mutants(rng: &mut Rng, w: &Written, chunks: &[Chunk], tier: Tier, lenient
 }
 
 fn run_one(api: usize, data: &[u8]) -> Verdict {
-    let sink = SharedSink::new();
+    let sel = case_hash(&[data]);
+    let sink = SharedSink::varied(sel >> 8, 1 << 16);
     let obs = sut::new_obs(u64::MAX);
+    let rk = ReaderKind::from_selector(sel);
     match api {
-        0 => sut::decode(Entry::Lzma2, data, &sut::default_options(), ReaderKind::Slice, &sink, &obs).verdict,
+        0 => sut::decode(Entry::Lzma2, data, &sut::default_options(), rk, &sink, &obs).verdict,
         1 => {
             let mut d = Lzma2Decoder::new();
-            sut::raw_lzma2_decompress(&mut d, data, ReaderKind::Buf(7), &sink, &obs).verdict
+            // a quarter of the raw-decoder runs use an object that already decoded a small valid
+            // stream and was reset (a reset decoder is a new decoder): framing rules still apply
+            if sel % 4 == 1 {
+                let warm = [0xE0u8, 0, 0, 0, 5, 0x5D, 0, 0x20, 0x80, 0, 0, 0];
+                let _ = sut::raw_lzma2_decompress(&mut d, &warm, ReaderKind::Slice, &SharedSink::counting_only(), &sut::new_obs(u64::MAX));
+                let _ = sut::guarded(|| d.reset());
+            }
+            sut::raw_lzma2_decompress(&mut d, data, if sel % 8 >= 5 { rk } else { ReaderKind::Buf(7) }, &sink, &obs).verdict
         }
         _ => {
             // CRC-repaired .xz wrapper: no size fields, check None, index matching the
             // mutated data length, so that only the LZMA2 layer can object
             let b = BlockSpec::new(data.to_vec(), vec![], 0, &BlockOpts::default());
             let f = XzSpec::new(0, vec![b]).serialize().0;
-            sut::decode(Entry::Xz, &f, &sut::default_options(), ReaderKind::Slice, &sink, &obs).verdict
+            sut::decode(Entry::Xz, &f, &sut::default_options(), rk, &sink, &obs).verdict
         }
     }
 }
